@@ -584,3 +584,79 @@ func init() {
 			x.C.Count("project components set in yorkieServer handlers", total)
 		}})
 }
+
+func init() {
+	register(&Rule{ID: "T5", Min: 40, Text: "authorisation results are honoured: for every call of an authorisation function (package server/authz: FindUserRole, FindUserRoleByName, CheckPermission, CheckPermissionByName; rpc/auth.VerifyAccess; projects.ProjectAndRole / GetProject by user) every success return of the calling function that can follow the call lies on the call's success edge — an authorisation error is never ignored, logged or downgraded; inside authz the role lookups succeed only for the project's owner or on the success edge of the membership lookup, and CheckPermission succeeds only when the role is at least the required one",
+		Run: func(x *Ctx) {
+			var fns []*types.Func
+			for _, s := range []string{"server/authz.FindUserRole", "server/authz.FindUserRoleByName", "server/authz.CheckPermission", "server/authz.CheckPermissionByName",
+				"server/rpc/auth.VerifyAccess", "server/projects.ProjectAndRole", "server/projects.GetProject"} {
+				if o := x.P.FnObj(s); o != nil {
+					fns = append(fns, o)
+				}
+			}
+			if len(fns) < 5 {
+				x.C.Unresolved(x.id(), "authorisation functions (server/authz, rpc/auth.VerifyAccess, projects.ProjectAndRole)")
+				return
+			}
+			n := map[string]int{}
+			for _, o := range fns {
+				for _, c := range x.directCallers(o) {
+					call, ok := c.(*ssa.Call)
+					if !ok {
+						continue
+					}
+					fn := c.Parent()
+					rets := successReturns(fn)
+					if fn.Signature.Results().Len() == 0 || !isErrorType(fn.Signature.Results().At(fn.Signature.Results().Len()-1).Type()) {
+						continue // a caller without an error result (a goroutine body): not a gate
+					}
+					n[prog.FnName(fn)]++
+					k := fmt.Sprintf("caller=%s authz-call=%s#%d", prog.FnName(fn), o.Name(), n[prog.FnName(fn)])
+					ok2 := true
+					for _, r := range rets {
+						if !prog.MayPrecede(call, r) {
+							continue
+						}
+						if !x.quietGuarded(r, []Cmp{errNilCmp(call)}) {
+							ok2 = false
+						}
+					}
+					x.check(ok2, k, x.pos(call), "success only on the authorisation's success edge",
+						"the caller can return success although "+o.Name()+" returned an error: the authorisation decision is ignored or downgraded")
+				}
+			}
+			// inside authz
+			member := x.P.IfaceMethod(dbPkg + ".Database.FindMemberInfo")
+			ownerF := x.P.Field(dbPkg + ".ProjectInfo.Owner")
+			for _, s := range []string{"server/authz.FindUserRole", "server/authz.FindUserRoleByName"} {
+				fn := x.fn(s)
+				if fn == nil || member == nil || ownerF == nil {
+					continue
+				}
+				var mc *ssa.Call
+				for _, c := range callsToIn(fn, member) {
+					mc, _ = c.(*ssa.Call)
+				}
+				var userP VP
+				for i, pm := range fn.Params {
+					if strings.Contains(strings.ToLower(pm.Name()), "user") {
+						userP = vpParam(fn, i)
+					}
+				}
+				for i, r := range successReturns(fn) {
+					cmps := []Cmp{{L: vpField(ownerF), R: userP, Want: EQ}}
+					if mc != nil {
+						cmps = append(cmps, errNilCmp(mc))
+					}
+					x.guardedSite(fmt.Sprintf("func=%s ok-return#%d owner-or-member", prog.FnName(fn), i+1), r, cmps, nil)
+				}
+			}
+			if fn := x.fn("server/authz.CheckPermission"); fn != nil {
+				atLeast := x.P.FnObj(dbPkg + ".MemberRole.IsAtLeast")
+				for i, r := range successReturns(fn) {
+					x.guardedSite(fmt.Sprintf("func=%s ok-return#%d role-at-least-required", prog.FnName(fn), i+1), r, []Cmp{isTrue(vpCall(atLeast))}, nil)
+				}
+			}
+		}})
+}
